@@ -57,7 +57,7 @@ def ctor_variations(rng, cfg):
 
 
 def community_session(rng, version, flavour=None, **kw):
-    cfg = {"version": version, "community": rng.choice(["public", "c0", "private-community-string", "", "public", "L" * rng.choice([127, 128, 200, 256]), "public", "c0", "\u043f\u0443\u0431\u043b\u0438\u043a\u0430", "caf\u00e9 with space", "nul\x00inside"]), "timeout_ns": gen.timeout_ns(rng)}
+    cfg = {"version": version, "community": rng.choice(["public", "c0", "private-community-string", "", "public", "L" * rng.choice([127, 128, 200, 256]), "public", "c0", "\u043f\u0443\u0431\u043b\u0438\u043a\u0430", "caf\u00e9 with space", "nul\x00inside", "caf\ufffd"]), "timeout_ns": gen.timeout_ns(rng)}
     cfg.update(kw)
     return ctor_variations(rng, cfg)
 
@@ -159,6 +159,8 @@ class V3Tracker:
             self.time = label["time"]
             if not self.engine_id:
                 self.engine_id = bytes.fromhex(label["engine_id"])
-            if self.deferred and res["op"]["op"] == "refresh" and ex_index == 0:
+            if self.deferred and ex_index == 0:
+                # engine id discovery: by refresh() / entering the session, or - when the session is used
+                # directly - by the first operation itself (it must not send anything as the placeholder user)
                 self.deferred = False
         return kind
